@@ -128,6 +128,13 @@ def specials():
     sp("push-truncated", cd0 + R32[:-1] + [0x7F, 0x01, 0x02], "PUSH-truncated")
     sp("jump-into-pushdata", [("PUSH", 4), "JUMP", ("PUSH", 0x5B), ("PUSH", 1)] + R32, "JUMP-pushdata")
     sp("jumpi-bad-dest-sym", cd0 + [("PUSH", 3), "JUMPI", ("PUSH", 1)] + R32, "JUMPI-bad-dest")
+    for nm, code in {
+        "two-dests": cd0 + ["JUMP", ("LABEL", "a"), ("PUSH", 7)] + R32 + [("PUSH", 0x5B5B, 2), ("LABEL", "b"), ("PUSH", 9)] + R32,
+        "masked": cd0 + [("PUSH", 0x1F), "AND", "JUMP", ("LABEL", "a"), ("PUSH", 7)] + R32 + [("LABEL", "b"), ("PUSH", 9)] + R32,
+        "no-dest": cd0 + ["JUMP", ("PUSH", 7)] + R32,
+    }.items():
+        sp(f"symjump-{nm}", code, "symbolic-jump", options={"symbolic_jump": True})
+    sp("symjump-off", cd0 + ["JUMP", ("LABEL", "a"), ("PUSH", 7)] + R32, "symbolic-jump-off")
     sp("stack-underflow", ["ADD"], "stack-underflow")
     sp("invalid-op", [0x0C], "undefined-opcode")
     sp("selfbalance-caller", ["CALLER", "BALANCE", "SELFBALANCE", "ADD"] + R32, "balance-read")
@@ -218,4 +225,226 @@ def programs(seed, n, tier, only=None, c02=False):
             out.append(p)
     if not only or "special" in only:
         out += specials()
+    return out
+
+
+# ---------------------------------------------------------------------------
+# C09 corner cases: static-frame rules, self transfer, deep nests, creation rolled back by a revert
+# ---------------------------------------------------------------------------
+def specials_c09():
+    out = []
+    A, B, C, D = 0xAAA1, 0xBBB1, 0xCCC1, 0xDDD1
+    R32 = [("PUSH", 0), "MSTORE", ("PUSH", 32), ("PUSH", 0), "RETURN"]
+
+    def sp(name, main, others, tag, **kw):
+        kw.setdefault("ncd", 2)
+        p = _mk_multi(f"c09#{name}", main, others, features=(name,), **kw)
+        p.vtag = tag
+        out.append(p)
+
+    def ret_words(n):
+        return [("PUSH", 32 * n), ("PUSH", 0x400), "RETURN"]
+
+    def flag_and_probe(k=0):
+        # after a call: store flag at 0x400+64k, RETURNDATASIZE at +32
+        return [("PUSH", 0x400 + 64 * k), "MSTORE", "RETURNDATASIZE", ("PUSH", 0x420 + 64 * k), "MSTORE"]
+
+    report = gen.callee_report()
+    # --- state-modifying instruction inside a static frame, one per kind -------------------------------------
+    for nm, body in {
+        "call-value": gen.call_site("CALL", C, [("PUSH", 1)], 0, 0, 0, 0) + R32,
+        "call-symvalue": gen.call_site("CALL", C, [("PUSH", 0), "CALLDATALOAD"], 0, 0, 0, 0) + R32,
+        "call-zero-value": gen.call_site("CALL", C, [("PUSH", 0)], 0, 0, 0, 0) + R32,
+        "callcode-value": gen.call_site("CALLCODE", C, [("PUSH", 1)], 0, 0, 0, 0) + R32,
+        "sstore": [("PUSH", 1), ("PUSH", 0), "SSTORE", ("PUSH", 1)] + R32,
+        "tstore": [("PUSH", 1), ("PUSH", 0), "TSTORE", ("PUSH", 1)] + R32,
+        "log0": [("PUSH", 0), ("PUSH", 0), "LOG0", ("PUSH", 1)] + R32,
+        "create": [("PUSH", 0), ("PUSH", 0), ("PUSH", 0), "CREATE"] + R32,
+        "create2": [("PUSH", 0), ("PUSH", 0), ("PUSH", 0), ("PUSH", 0), "CREATE2"] + R32,
+        "sload-only": [("PUSH", 0), "SLOAD", ("PUSH", 7), "ADD"] + R32,
+    }.items():
+        for outer in ("STATICCALL", "CALL"):
+            main = [("PUSH", 4), "CALLDATALOAD", ("PUSH", 0x100), "MSTORE", ("PUSH", 0x55), ("PUSH", 0), "SSTORE"]
+            main += gen.call_site(outer, B, [("PUSH", 0)], 0x100, 32, 0x200, 32) + flag_and_probe()
+            main += [("PUSH", 0x200), "MLOAD", ("PUSH", 0x440), "MSTORE", ("PUSH", B, 20), "BALANCE", ("PUSH", 0x460), "MSTORE",
+                     ("PUSH", C, 20), "BALANCE", ("PUSH", 0x480), "MSTORE"] + ret_words(5)
+            sp(f"{outer.lower()}-then-{nm}", main, {B: body, C: report}, f"static-{nm}" if outer == "STATICCALL" else f"plain-{nm}",
+               balances=("this", "caller", B, C))
+    # static flag is inherited through nested CALL / DELEGATECALL frames
+    for mid in ("CALL", "DELEGATECALL", "CALLCODE"):
+        inner = [("PUSH", 1), ("PUSH", 0), "SSTORE", ("PUSH", 1)] + R32
+        midc = gen.call_site(mid, C, [("PUSH", 0)], 0, 0, 0, 32) + R32
+        main = gen.call_site("STATICCALL", B, [], 0, 0, 0x200, 32) + flag_and_probe() + [
+            ("PUSH", 0x200), "MLOAD", ("PUSH", 0x440), "MSTORE"] + ret_words(3)
+        sp(f"static-inherited-{mid.lower()}", main, {B: midc, C: inner}, f"static-inherited-{mid}")
+    # --- self transfer: CALL to own address with value ---------------------------------------------------------
+    main = ["CALLDATASIZE", ("PUSHL", "go"), "JUMPI", "STOP", ("LABEL", "go")]
+    main += gen.call_site("CALL", progs.THIS, [("PUSH", 4), "CALLDATALOAD", ("PUSH", 0xFFFF), "AND"], 0, 0, 0, 0) + flag_and_probe()
+    main += ["SELFBALANCE", ("PUSH", 0x440), "MSTORE"] + ret_words(3)
+    sp("self-call-value", main, {}, "self-transfer")
+    main = ["CALLDATASIZE", ("PUSHL", "go"), "JUMPI", "STOP", ("LABEL", "go")]
+    main += gen.call_site("CALL", progs.THIS, [("PUSH", 10)], 0, 0, 0, 0) + flag_and_probe()
+    main += ["SELFBALANCE", ("PUSH", 0x440), "MSTORE"] + ret_words(3)
+    sp("self-call-value-concrete", main, {}, "self-transfer")
+    # --- every call kind observes the right context (callee reports) ------------------------------------------
+    for kind in ("CALL", "CALLCODE", "DELEGATECALL", "STATICCALL"):
+        main = [("PUSH", 4), "CALLDATALOAD", ("PUSH", 0x100), "MSTORE", ("PUSH", 0x99), ("PUSH", 1), "SSTORE"]
+        main += gen.call_site(kind, B, [("PUSH", 36), "CALLDATALOAD", ("PUSH", 0xFF), "AND"], 0x100, 32, 0x500, 0xE0) + flag_and_probe()
+        main += [("PUSH", 1), "SLOAD", ("PUSH", 0x440), "MSTORE", ("PUSH", B, 20), "BALANCE", ("PUSH", 0x460), "MSTORE",
+                 "SELFBALANCE", ("PUSH", 0x480), "MSTORE", ("PUSH", 0x200), ("PUSH", 0x400), "RETURN"]
+        # B reports its context and then writes storage slot 1 := ADDRESS (lands in caller's storage for *CALLCODE/DELEGATECALL)
+        bcode = ["ADDRESS", ("PUSH", 1), "SSTORE"] if kind != "STATICCALL" else []
+        bcode += gen.callee_report()
+        sp(f"context-{kind.lower()}", main, {B: bcode}, f"context-{kind}", balances=("this", "caller", B))
+    # --- depth-4 chains with mixed kinds; the innermost mutates and fails/succeeds by calldata -------------------
+    import itertools
+
+    kinds = ["CALL", "DELEGATECALL", "CALLCODE", "STATICCALL"]
+    for i, (k1, k2, k3) in enumerate(itertools.product(kinds, repeat=3)):
+        if i % 5 != 0:
+            continue
+        n1 = gen.callee_nest(k2, C, [("PUSH", 0)])
+        n2 = gen.callee_nest(k3, gen.A_MUTATE, [("PUSH", 36), "CALLDATALOAD", ("PUSH", 3), "AND"])
+        main = []
+        for k in range(3):
+            main += [("PUSH", 4 + 32 * k), "CALLDATALOAD", ("PUSH", 0x100 + 32 * k), "MSTORE"]
+        main += [("PUSH", 0x11), ("PUSH", 1), "SSTORE"]
+        main += gen.call_site(k1, B, [("PUSH", 0)], 0x100, 96, 0x500, 0x80) + flag_and_probe()
+        main += [("PUSH", 1), "SLOAD", ("PUSH", 0x440), "MSTORE", ("PUSH", 2), "SLOAD", ("PUSH", 0x460), "MSTORE",
+                 ("PUSH", 1), "TLOAD", ("PUSH", 0x480), "MSTORE"]
+        for k, a in enumerate([progs.THIS, B, C, gen.A_MUTATE]):
+            main += [("PUSH", a, 20), "BALANCE", ("PUSH", 0x4A0 + 32 * k), "MSTORE"]
+        main += [("PUSH", 0x200), ("PUSH", 0x400), "RETURN"]
+        sp(f"chain-{k1}-{k2}-{k3}".lower(), main, {B: n1, C: n2, gen.A_MUTATE: gen.callee_mutate()}, f"chain-{k1}-{k2}-{k3}",
+           ncd=3, balances=("this", "caller", B, C, gen.A_MUTATE))
+    # --- the callee fails on several paths; the caller writes storage after the call (rollback state must not be shared) ---
+    for kind in ("CALL", "DELEGATECALL", "CALLCODE"):
+        main = []
+        for k in range(2):
+            main += [("PUSH", 4 + 32 * k), "CALLDATALOAD", ("PUSH", 0x100 + 32 * k), "MSTORE"]
+        main += [("PUSH", 1), ("PUSH", 1), "SSTORE", ("PUSH", 1), ("PUSH", 1), "TSTORE"]
+        main += gen.call_site(kind, gen.A_MUTATE, [("PUSH", 0)], 0x100, 64, 0x500, 0x40) + flag_and_probe()
+        main += [("PUSH", 1), "SLOAD", ("PUSH", 0x440), "MSTORE", ("PUSH", 1), "TLOAD", ("PUSH", 0x460), "MSTORE"]
+        main += [("PUSH", 1), "SLOAD", ("PUSH", 1), "ADD", ("PUSH", 1), "SSTORE", ("PUSH", 1), "TLOAD", ("PUSH", 2), "ADD", ("PUSH", 1), "TSTORE"]
+        main += [("PUSH", 1), "SLOAD", ("PUSH", 0x480), "MSTORE", ("PUSH", 1), "TLOAD", ("PUSH", 0x4A0), "MSTORE"]
+        main += [("PUSH", gen.A_MUTATE, 20), "BALANCE", ("PUSH", 0x4C0), "MSTORE"] + ret_words(7)
+        sp(f"write-after-multi-fail-{kind.lower()}", main, {gen.A_MUTATE: gen.callee_mutate()}, f"write-after-multi-fail-{kind}",
+           balances=("this", "caller", gen.A_MUTATE))
+    # --- creation inside a frame that later reverts must vanish ------------------------------------------------
+    child_rt = asm.assemble(gen.callee_report())
+    init = asm.creation_code(child_rt, ["CALLVALUE", ("PUSH", 3), "SSTORE"])
+    for op in ("CREATE", "CREATE2"):
+        x = [("PUSHSIZE", "is", "ie"), ("PUSHM", "is"), ("PUSH", 0x100), "CODECOPY"]
+        x += ([("PUSH", 7)] if op == "CREATE2" else []) + [("PUSH", len(init)), ("PUSH", 0x100), ("PUSH", 0), op]
+        x += ["DUP1", ("PUSH", 0), "MSTORE", "EXTCODESIZE", ("PUSH", 32), "MSTORE"]
+        x += [("PUSH", 0), "CALLDATALOAD", ("PUSHL", "rv"), "JUMPI", ("PUSH", 64), ("PUSH", 0), "RETURN",
+              ("LABEL", "rv"), ("PUSH", 64), ("PUSH", 0), "REVERT", ("MARK", "is"), init, ("MARK", "ie")]
+        main = [("PUSH", 4), "CALLDATALOAD", ("PUSH", 0x100), "MSTORE"]
+        main += gen.call_site("CALL", B, [("PUSH", 0)], 0x100, 32, 0x200, 64) + flag_and_probe()
+        main += [("PUSH", 0x200), "MLOAD", "EXTCODESIZE", ("PUSH", 0x440), "MSTORE", ("PUSH", 0x220), "MLOAD", ("PUSH", 0x460), "MSTORE"]
+        main += ret_words(4)
+        sp(f"{op.lower()}-rolled-back", main, {B: x}, f"{op}-rollback")
+    return out
+
+
+# ---------------------------------------------------------------------------
+# C08: storage location programs
+# ---------------------------------------------------------------------------
+def programs_c08(seed, n, tier, only=None):
+    out = []
+    for layout in ("solidity", "generic"):
+        for fam, transient in (("F4", False), ("F4t", True)):
+            if only and fam not in only:
+                continue
+            m = n if fam == "F4" else max(3, n // 4)
+            for k in range(m):
+                g = gen.G4(f"{fam}-{seed}-{k}")
+                try:
+                    items = g.f4_storage(transient=transient)
+                    p = _mk(f"{fam}{layout[0]}#{seed}-{k}", items, features=g.features)
+                except Exception:
+                    import traceback
+
+                    traceback.print_exc()
+                    continue
+                p.options = {"storage_layout": layout}
+                p.known_preimages = tuple(g.preimages)
+                p.balances = ()
+                p.callvalue_zero = True
+                p.desc = g.desc
+                out.append(p)
+    if not only or "c08" in only:
+        out += specials_c08()
+    return out
+
+
+def specials_c08():
+    out = []
+    cd0 = [("PUSH", 4), "CALLDATALOAD"]
+    cd1 = [("PUSH", 36), "CALLDATALOAD"]
+
+    def sp(name, items, tag, pre=(), layout="solidity"):
+        p = _mk(f"c08{layout[0]}#{name}", items, features=(name,))
+        p.vtag = tag
+        p.options = {"storage_layout": layout}
+        p.known_preimages = tuple(pre)
+        p.balances = ()
+        p.callvalue_zero = True
+        out.append(p)
+
+    def ret(n):
+        return [("PUSH", 32 * n), ("PUSH", 0x400), "RETURN"]
+
+    def out_(k):
+        return [("PUSH", 0x400 + 32 * k), "MSTORE"]
+
+    def arr_rt(p):
+        return [("PUSH", p), "PUSH0", "MSTORE", ("PUSH", 32), "PUSH0", "SHA3"]
+
+    def mp(p, key):
+        return key + ["PUSH0", "MSTORE", ("PUSH", p), ("PUSH", 32), "MSTORE", ("PUSH", 64), "PUSH0", "SHA3"]
+
+    for layout in ("solidity", "generic"):
+        for p in gen.boundary_slots() + [0, 1]:
+            h = gen.keccak_int(gen._k32(p))
+            pre = [gen._k32(p)]
+            # a[i] = 7 (runtime hash, symbolic index) ; load constant slots keccak(p)+c, c = 0..3
+            it = [("PUSH", 7)] + arr_rt(p) + cd0 + [("PUSH", 3), "AND", "ADD", "SSTORE"]
+            for c in range(4):
+                it += [("PUSH", (h + c) % (1 << 256), 32), "SLOAD"] + out_(c)
+            sp(f"arr-rt-store-const-load-p{p}", it + ret(4), f"array-const-after-runtime-hash/p{p}", pre, layout)
+            # store through the constant form, load through the runtime form
+            it = [("PUSH", 9), ("PUSH", (h + 1) % (1 << 256), 32), "SSTORE", ("PUSH", 5), ("PUSH", h, 32), cd1[0], cd1[1],
+                  ("PUSH", 3), "AND", "ADD", "SSTORE"]
+            for c in range(3):
+                it += arr_rt(p) + [("PUSH", c), "ADD", "SLOAD"] + out_(c)
+            sp(f"arr-const-store-rt-load-p{p}", it + ret(3), f"const-before-runtime-hash/array-p{p}", pre, layout)
+        # mapping with colliding symbolic keys
+        it = [("PUSH", 1)] + mp(2, cd0) + ["SSTORE", ("PUSH", 2)] + mp(2, cd1) + ["SSTORE"] + mp(2, cd0) + ["SLOAD"] + out_(0)
+        it += mp(2, cd1) + ["SLOAD"] + out_(1) + mp(3, cd0) + ["SLOAD"] + out_(2) + [("PUSH", 2), "SLOAD"] + out_(3)
+        sp("map-sym-keys-collide", it + ret(4), "mapping-collide", (), layout)
+        # mapping key concrete vs symbolic, hash precomputed as a constant
+        hk = gen.keccak_int(gen._k32(5) + gen._k32(2))
+        it = [("PUSH", 0xAA)] + mp(2, cd0) + ["SSTORE", ("PUSH", hk, 32), "SLOAD"] + out_(0)
+        it += [("PUSH", 0xBB), ("PUSH", hk, 32), "SSTORE"] + mp(2, cd0) + ["SLOAD"] + out_(1) + mp(2, [("PUSH", 5)]) + ["SLOAD"] + out_(2)
+        sp("map-const-hash-vs-sym-key", it + ret(3), "const-before-runtime-hash/mapping", (gen._k32(5) + gen._k32(2),), layout)
+        # scalar vs mapping vs array never alias; overwrite order
+        it = [("PUSH", 1), ("PUSH", 0), "SSTORE"] + cd0 + mp(0, cd1) + ["SSTORE"] + cd1 + arr_rt(0) + cd0 + [("PUSH", 1), "AND", "ADD", "SSTORE"]
+        it += [("PUSH", 0), "SLOAD"] + out_(0) + mp(0, cd1) + ["SLOAD"] + out_(1) + arr_rt(0) + ["SLOAD"] + out_(2) + arr_rt(0) + [
+            ("PUSH", 1), "ADD", "SLOAD"] + out_(3)
+        sp("scalar-map-array-same-base", it + ret(4), "no-alias", (), layout)
+        # last write wins on the same symbolic location written twice; reordered additions
+        it = [("PUSH", 1)] + arr_rt(1) + cd0 + [("PUSH", 3), "AND", "ADD", "SSTORE"]
+        it += [("PUSH", 2)] + cd0 + [("PUSH", 3), "AND"] + arr_rt(1) + ["ADD", "SSTORE"]
+        it += arr_rt(1) + cd1 + [("PUSH", 3), "AND", "ADD", "SLOAD"] + out_(0)
+        sp("array-reordered-add", it + ret(1), "reordered-add", (), layout)
+        # struct field offsets on a mapping value: m[k].f0, m[k].f1, m[k+1].f0
+        it = [("PUSH", 0x10)] + mp(1, cd0) + ["SSTORE", ("PUSH", 0x11)] + mp(1, cd0) + [("PUSH", 1), "ADD", "SSTORE"]
+        it += mp(1, cd1) + ["SLOAD"] + out_(0) + [("PUSH", 1)] + mp(1, cd1) + ["ADD", "SLOAD"] + out_(1)
+        it += mp(1, cd1) + [("PUSH", 2), "ADD", "SLOAD"] + out_(2)
+        sp("map-struct-fields", it + ret(3), "struct-offset", (), layout)
+        # transient storage mirrors
+        it = [("PUSH", 1)] + mp(2, cd0) + ["TSTORE", ("PUSH", 2)] + mp(2, cd1) + ["TSTORE"] + mp(2, cd0) + ["TLOAD"] + out_(0)
+        it += mp(2, cd0) + ["SLOAD"] + out_(1)
+        sp("transient-map-collide", it + ret(2), "transient", (), layout)
     return out
